@@ -1,6 +1,7 @@
 """C03 - priorities: the highest-priority writer wins, the latest among equals."""
 from ..mutate import Mutant, in_func, delete_stmt
 from . import mergerules as mr
+from . import unitrules
 from .tagtable import check_flag_tags
 
 from .common import Guard  # noqa: E402
@@ -30,6 +31,7 @@ def check(repo, run, tier):
         g(mr.node_local_kwargs, repo, run, 'C03.R4b', names)
     g(mr.child_kwargs_keys, repo, run, 'C03.R4c')
     g(check_flag_tags, repo, run, 'C03.R5', tags={'!force', '!weak'})
+    g(unitrules.list_prefilter_guard, repo, run, 'C03.R5')
     g.done()
 
 
